@@ -24,7 +24,7 @@ class C01(Prop):
             "distinct = by input hash")
     ASSUMPTIONS = ["this x86-64 glibc build only (strtod/locale of other platforms not explored)",
                    "termination: libFuzzer -timeout=10 on inputs <= 4 KiB, Hypothesis cases run to completion"]
-    REQUIRED_CLASSES = ["sweep_text", "deep_shape"]
+    REQUIRED_CLASSES = ["sweep_text", "deep_shape", "long_number_run"]
 
     def budget(self, tier):
         return {"workers": 8, "examples": 60 if tier == "quick" else 2500}
@@ -50,9 +50,28 @@ class C01(Prop):
             "entry": st.integers(0, 3),
             "flags": st.integers(0, 3),
         })
-        return st.one_of(sweep, sweep, sweep, sweep, sweep, sweep, deep)
+        longnum = st.fixed_dictionaries({
+            "kind": st.just("longnum"),
+            "prefix": st.sampled_from([b"", b"[", b"[1,", b'{"a":', b" ", b"\xef\xbb\xbf", b"-", b"[-"]),
+            "run": st.sampled_from([60, 61, 62, 63, 64, 65, 66, 70, 127, 128, 129, 200]),
+            "chars": st.sampled_from([b"1", b"0", b"9", b"12345678.9", b"1e+", b"-", b".", b"e", b"1.5E-3"]),
+        })
+        return st.one_of(sweep, sweep, sweep, sweep, sweep, sweep, deep, longnum)
 
     def run_case(self, lib, case, stats):
+        if case["kind"] == "longnum":
+            # runs of number characters around the 63-byte copy limit, ending exactly at the end of the buffer
+            run = (case["chars"] * 256)[:case["run"]]
+            text = case["prefix"] + run
+            so = SweepOut()
+            # every prefix of the text: the run then ends at the buffer end with every length up to `run`
+            lib.sweep_prefixes(text, len(text), b"", 0, 0, ctypes.byref(so))
+            stats.inner += int(so.iterations)
+            stats.cls("long_number_run")
+            stats.nontriv(text, {"text": text})
+            if so.code:
+                raise Violation("long number run: %s (length=%d entry/flags=%d) on %r" % (so.msg.decode(), so.b, so.c, text), key="sweep:%d" % so.code)
+            return
         if case["kind"] == "sweep":
             rnd = random.Random(case["rseed"])
             text = (BOM if case["bom"] else b"") + model.emit_text(case["jv"], rnd)
